@@ -559,11 +559,17 @@ def _tv(v):
     return {"VList": [[_tv(x) for x in v["l"]]]}
 
 
-def analyse_flush_nesting(case, io):
+def _hook_site(hook, key):
+    return (":" + hook[key].replace("_", "-")) if key in hook else ""
+
+
+def analyse_flush_nesting(case, io, items_answered=False):
     """C05 clauses that need no knowledge of the program, for scenario classes outside the model (a flush body
-    that re-enters the scheduler): each batch runs its _flush at most once; the scheduler never selects a batch
-    whose _flush already ran (in progress or finished); before/after events are properly nested brackets, one pair
-    around each scheduler flush; an item is completed at most once."""
+    that re-enters the scheduler; hooks of the batch that raise, so that batch.flush() itself fails): each batch runs
+    its _flush at most once; the scheduler never selects a batch whose _flush already ran (in progress or finished);
+    before/after events are properly nested brackets, one pair around each scheduler flush - also around one that
+    fails; an item is completed at most once; with items_answered, every item of a batch whose _flush ran inside a
+    scheduler flush is completed when that flush is over (at the after event)."""
     if "full" not in io:
         return []
     fs = []
@@ -571,12 +577,21 @@ def analyse_flush_nesting(case, io):
     def add(clause, site, msg):
         if not any(f["clause"] == clause and f["site"] == site for f in fs):
             fs.append(dict(clause=clause, site=site, msg=msg))
-    flushed, itemdone, open_before = {}, {}, []
+    flushed, itemdone, open_before, flush_items, hook = {}, {}, [], {}, {}
     for e in io["full"]:
         n = _name(e)
         a = e[n]
+        if n == "AuxHookRaise":
+            hook[(a[0], a[1])] = a[2]
+        elif n == "AuxBeforeSub":
+            hook[(a[0], a[1])] = "before-subscriber-%s" % a[2]
         if n == "EvBefore":
             key = (a[0], a[1])
+            if open_before and not open_before[-1][1] and items_answered:
+                # the previous before event was followed neither by the batch's _flush nor by its after event
+                add("C05:events-bracket", "before-without-after%s" % _hook_site(hook, open_before[-1][0]),
+                    "before-flush event for %s while the bracket of %s was never closed" % (key, open_before[-1][0]))
+                open_before.pop()
             if flushed.get(key, 0) > 0:
                 add("C05:flush-at-most-once", "flushed-batch-selected",
                     "the scheduler selected batch %s for flushing although its flush %s" % (
@@ -589,6 +604,7 @@ def analyse_flush_nesting(case, io):
                 add("C05:flush-at-most-once", "batch-flushed-twice", "batch %s was flushed %d times" % (key, flushed[key]))
             if not a[2]:
                 add("C05:flush-at-most-once", "empty-batch-flushed", "empty batch %s was flushed" % (key,))
+            flush_items[key] = [tuple(c) for c in a[2]]
             if open_before and not open_before[-1][1]:
                 if open_before[-1][0] != key:
                     add("C05:events-bracket", "before-names-other-batch",
@@ -600,11 +616,22 @@ def analyse_flush_nesting(case, io):
                 add("C05:events-bracket", "after-without-before", "after-flush event for %s without a matching before event" % (key,))
             else:
                 open_before.pop()
+                if items_answered:
+                    left = [list(c) for c in flush_items.get(key, []) if itemdone.get(c, 0) == 0]
+                    if left:
+                        add("C05:item-completion", "item-left-pending-after-flush%s" % _hook_site(hook, key),
+                            "items %s of flushed batch %s were not completed when its scheduler flush was over" % (left, key))
+        elif n == "EvSched" and items_answered:
+            # the outermost call is over: a bracket still open here was never closed
+            for key, _ in open_before:
+                add("C05:events-bracket", "before-without-after%s" % _hook_site(hook, key),
+                    "before-flush event for %s never followed by its after event (the computation is over)" % (key,))
+            del open_before[:]
         elif n == "EvItemDone":
             c = _t(a[0])
             itemdone[c] = itemdone.get(c, 0) + 1
             if itemdone[c] > 1:
                 add("C05:item-completion", "item-completed-twice", "item %s was completed twice" % (list(c),))
     if open_before and "Hang" not in io and not io.get("aborted"):
-        add("C05:events-bracket", "before-without-after", "before-flush event for %s never followed by its after event" % (open_before[-1][0],))
+        add("C05:events-bracket", "before-without-after%s" % _hook_site(hook, open_before[-1][0]), "before-flush event for %s never followed by its after event" % (open_before[-1][0],))
     return fs
